@@ -620,6 +620,13 @@ else:
 
                 cls.__model_fields__[name] = field
 
+        def __eq__(self, other: Any) -> bool:
+            # (the dataclass decorator sees no fields and would make any two
+            # instances of a class equal; compare what they hold, as Pydantic does)
+            if other.__class__ is not self.__class__:
+                return NotImplemented
+            return self.__dict__ == other.__dict__
+
         def __init__(self, /, **data: Any):
             # "self" is positional-only: a member of the data that is called
             # "self" (extra members are allowed) is just data
